@@ -28,8 +28,8 @@ def scratch():
 
 
 def run_script(script, args, cwd):
-    env = dict(os.environ, PYTHONPATH='/repo', PYTHONHASHSEED='0')
-    p = subprocess.run(['/venv/bin/python', os.path.join('/repo/scripts', script)] + args, cwd=cwd, env=env,
+    env = dict(os.environ, PYTHONPATH=common.REPO, PYTHONHASHSEED='0')
+    p = subprocess.run(['/venv/bin/python', os.path.join(common.REPO, 'scripts', script)] + args, cwd=cwd, env=env,
                        capture_output=True, text=True, timeout=120)
     return p.returncode, p.stderr[-400:]
 
